@@ -6,10 +6,13 @@ import (
 	"errors"
 	"fmt"
 	"math/rand"
+	"strings"
 
+	"codeberg.org/TauCeti/mangle-go/analysis"
 	"codeberg.org/TauCeti/mangle-go/ast"
 	"codeberg.org/TauCeti/mangle-go/engine"
 	"codeberg.org/TauCeti/mangle-go/factstore"
+	"codeberg.org/TauCeti/mangle-go/parse"
 
 	"verif/internal/canon"
 	"verif/internal/core"
@@ -24,6 +27,15 @@ type c17Case struct {
 	Limit int          `json:"limit"`
 	Kind  string       `json:"kind"`
 	Text  string       `json:"text,omitempty"`
+	// Lattice != nil: a counting chain on a predicate declared with a functional dependency and a
+	// merge predicate (facts are merged per key instead of added); Prog is unused.
+	Lattice *c17Lattice `json:"lattice,omitempty"`
+}
+
+type c17Lattice struct {
+	Chain    int  `json:"chain"`    // keys 0..Chain are derived; 0 = no guard (divergent)
+	TwoRules bool `json:"twoRules"` // a second rule derives a smaller value for the same key (the merge keeps the larger)
+	Plain    bool `json:"plain"`    // control: the same program without the merge declaration
 }
 
 type c17 struct{}
@@ -40,7 +52,7 @@ func (c17) Cases(tier string) int {
 func (c17) Describe() core.Info {
 	return core.Info{
 		Level: "exploration",
-		Rule: "typed random programs WITHOUT termination guards (unbounded fn:plus / fn:mult / fn:list:cons through recursion) mixed with terminating ones, base facts preloaded, evaluated with WithCreatedFactLimit(L), L in {1,2,5,20,100}, on every writable store kind behind a counting wrapper. Decided on logical steps: the wrapper aborts the run when successful Adds exceed B = (rules+3)*(L+1)*(strata+1) (violation: unbounded creation); a nil error requires the store to equal the reference model, which is computed with a bound of (rules+3)*(L+1)+50 derived facts (reference larger => the engine must have returned an error, because its own per-join/per-round/per-store checks cap what an error-free run can create). Non-trivial: program diverges (reference exceeds its bound) or its number of derived facts is within +-3 of L; distinct by (program, L, store).",
+		Rule: "typed random programs WITHOUT termination guards (unbounded fn:plus / fn:mult / fn:list:cons through recursion) mixed with terminating ones, base facts preloaded, evaluated with WithCreatedFactLimit(L), L in {1,2,5,20,100}, on every writable store kind behind a counting wrapper; every 25th case is a counting chain level(N,D) (guarded to 3..4000 keys or unguarded, one or two rules) on a predicate declared with fundep + merge (facts merged per key through a deferred lattice predicate), or the same chain without the declaration as control: one fresh key per round, so only the total limit can stop it; a nil error there requires every level(n,n) up to the guard. Decided on logical steps: the wrapper aborts the run when successful Adds exceed B = (rules+3)*(L+1)*(strata+1) (violation: unbounded creation); a nil error requires the store to equal the reference model, which is computed with a bound of (rules+3)*(L+1)+50 derived facts (reference larger => the engine must have returned an error, because its own per-join/per-round/per-store checks cap what an error-free run can create). Non-trivial: program diverges (reference exceeds its bound) or its number of derived facts is within +-3 of L; distinct by (program, L, store).",
 		Assumptions: []string{"an error on a small terminating program is not judged (the property does not exclude it); it is counted", "B is derived from the per-join, per-round and per-store limit checks of the loop and is deliberately generous"},
 		PerCaseTimeout: 120e9,
 	}
@@ -63,6 +75,12 @@ func (c17) Gen(r *rand.Rand, tier string, i int) any {
 			},
 		}
 		return c17Case{Prog: p, Limit: []int{5, 20, 50, 100}[r.Intn(4)], Kind: engineStoreKinds[r.Intn(len(engineStoreKinds))], Text: progText(p)}
+	}
+	if i%25 == 3 {
+		l := &c17Lattice{Chain: []int{0, 3, 10, 30, 150, 1000, 4000}[r.Intn(7)], TwoRules: r.Intn(2) == 0, Plain: r.Intn(5) == 0}
+		c := c17Case{Limit: []int{1, 2, 5, 20, 100}[r.Intn(5)], Kind: engineStoreKinds[r.Intn(len(engineStoreKinds))], Lattice: l}
+		c.Text = c17LatticeText(*l)
+		return c
 	}
 	p := gen.RandProgram(r, o)
 	return c17Case{Prog: p, Limit: []int{1, 2, 5, 20, 100}[r.Intn(5)], Kind: engineStoreKinds[r.Intn(len(engineStoreKinds))], Text: progText(p)}
@@ -93,7 +111,114 @@ func (c *countingStore) Add(a ast.Atom) bool {
 	return ok
 }
 
+type countingRemoveStore struct{ *countingStore }
+
+func (c countingRemoveStore) Remove(a ast.Atom) bool {
+	if rm, ok := c.FactStore.(factstore.FactStoreWithRemove); ok {
+		return rm.Remove(a)
+	}
+	return false
+}
+
+func c17LatticeText(l c17Lattice) string {
+	guard := ""
+	if l.Chain > 0 {
+		guard = fmt.Sprintf("M < %d, ", l.Chain)
+	}
+	t := "level(0, 0).\nlevel(N, D) :- level(M, C), " + guard + "N = fn:plus(M, 1), D = fn:plus(C, 1).\n"
+	if l.TwoRules {
+		t += "level(N, D) :- level(M, C), " + guard + "N = fn:plus(M, 1), D = C.\n"
+	}
+	if !l.Plain {
+		t += "deeper(D1, D2, D) :- D1 < D2, D = D2.\ndeeper(D1, D2, D) :- D2 <= D1, D = D1.\n"
+	}
+	return t
+}
+
+func c17Atom(s string) ast.Atom {
+	t, err := parse.Term(s)
+	if err != nil {
+		panic(err)
+	}
+	return t.(ast.Atom)
+}
+
+// c17ExecLattice: the chain creates one fact for a fresh key per round, so only the total limit can stop it.
+func c17ExecLattice(c c17Case, res *core.Result) (skip string, fail *evalFail) {
+	l := *c.Lattice
+	unit, err := parse.Unit(strings.NewReader(c17LatticeText(l)))
+	if err != nil {
+		return "parse-error", nil
+	}
+	if !l.Plain {
+		levelDecl, err1 := ast.NewDecl(c17Atom("level(N, D)"), []ast.Atom{c17Atom("fundep([N], [D])"), c17Atom("merge([D], 'deeper')")}, nil, nil)
+		deeperDecl, err2 := ast.NewDecl(c17Atom("deeper(D1, D2, D)"), []ast.Atom{c17Atom("mode('+', '+', '-')"), c17Atom("deferred()")}, nil, nil)
+		if err1 != nil || err2 != nil {
+			return "decl-error", nil
+		}
+		unit.Decls = append(unit.Decls, levelDecl, deeperDecl)
+	}
+	pi, err := analysis.AnalyzeOneUnit(unit, nil)
+	if err != nil {
+		return "analysis-rejected", nil
+	}
+	rules := len(unit.Clauses)
+	B := (rules + 3) * (c.Limit + 1) * 4
+	cs := &countingStore{FactStore: newEngineStore(c.Kind, nil), budget: B}
+	var evalErr error
+	exceeded := -1
+	func() {
+		defer func() {
+			if r := recover(); r != nil {
+				if be, ok := r.(budgetExceeded); ok {
+					exceeded = be.adds
+					return
+				}
+				panic(r)
+			}
+		}()
+		evalErr = engine.EvalProgram(pi, countingRemoveStore{cs}, engine.WithCreatedFactLimit(c.Limit))
+	}()
+	if res != nil {
+		res.Ob("evaluations", 1)
+		res.Ob("lattice_programs", 1)
+		res.Ob("facts_created_total", cs.adds)
+		if l.Chain == 0 {
+			res.Ob("divergent_programs", 1)
+		}
+		if evalErr != nil {
+			res.Ob("runs_ending_with_error", 1)
+		} else if exceeded < 0 {
+			res.Ob("runs_ending_without_error", 1)
+		}
+		d := l.Chain + 1 - c.Limit
+		res.NonTrivial = l.Chain == 0 || l.Chain+1 > c.Limit || (d >= -3 && d <= 3)
+	}
+	tag := ":lattice"
+	if l.Plain {
+		tag = ":lattice-control"
+	}
+	if exceeded >= 0 {
+		return "", &evalFail{"creation-not-bounded" + tag, fmt.Sprintf("limit %d, store %s: the evaluation created %d facts, more than the bound B=%d, and was still running", c.Limit, c.Kind, exceeded, B)}
+	}
+	if evalErr != nil {
+		return "", nil
+	}
+	if l.Chain == 0 {
+		return "", &evalFail{"silent-partial-result:divergent" + tag, fmt.Sprintf("limit %d, store %s: evaluation of the unguarded chain returned nil after creating %d facts", c.Limit, c.Kind, cs.adds)}
+	}
+	for n := 0; n <= l.Chain; n++ {
+		if !cs.Contains(ast.NewAtom("level", ast.Number(int64(n)), ast.Number(int64(n)))) {
+			return "", &evalFail{"silent-partial-result" + tag, fmt.Sprintf("limit %d, store %s: evaluation returned nil but level(%d,%d) is missing (chain to %d)", c.Limit, c.Kind, n, n, l.Chain)}
+		}
+	}
+	return "", nil
+}
+
 func c17Exec(c c17Case, res *core.Result) (skip string, fail *evalFail) {
+	if c.Lattice != nil {
+		return c17ExecLattice(c, res)
+	}
 	pi, err := analyze(c.Prog, false)
 	if err != nil {
 		return "analysis-rejected", nil
@@ -204,7 +329,7 @@ func c17Exec(c c17Case, res *core.Result) (skip string, fail *evalFail) {
 func (c17) Run(cs any) core.Result {
 	c := cs.(c17Case)
 	var res core.Result
-	res.Key = core.HashKey(progText(c.Prog), fmt.Sprint(c.Limit), c.Kind)
+	res.Key = core.HashKey(progText(c.Prog), c.Text, fmt.Sprint(c.Limit), c.Kind)
 	res.Ob("limit:"+fmt.Sprint(c.Limit), 1)
 	skip, fail := c17Exec(c, &res)
 	if skip != "" {
@@ -217,7 +342,7 @@ func (c17) Run(cs any) core.Result {
 	}
 	sig := fail.sig
 	min := c
-	if core.ShrinkAllowed(sig) {
+	if c.Lattice == nil && core.ShrinkAllowed(sig) {
 		pc := shrinkProg(progCase{Prog: c.Prog}, func(t progCase) bool {
 			x := c
 			x.Prog = t.Prog
